@@ -514,6 +514,29 @@ pub fn run(ctx: &Ctx) -> Result<(), String> {
     if let Some(e) = failed.lock().unwrap().take() {
         return Err(e);
     }
+    // per-client statistics: two workers sharing the statistics queue (capacity 2W), every assignment
+    // of 6 rounds (request, step, hand-off) to the workers x every position of the reporter's pass:
+    // every worker stays alive and answers (deterministic counterpart of the status_interval points)
+    {
+        let (w, r) = (2usize, 6usize);
+        let n = w.pow(r as u32) * (r + 1);
+        par_for(n, 8, |code, _| {
+            let drain = code % (r + 1);
+            let mut a = code / (r + 1);
+            let ws: Vec<usize> = (0..r).map(|_| { let x = a % w; a /= w; x }).collect();
+            let drain_after = if drain == r { None } else { Some(drain) };
+            hist_n.fetch_add(1, Relaxed);
+            transitions.fetch_add(3 * r as u64 + w as u64, Relaxed);
+            match super::c18::shared_queue_history(w, &ws, drain_after) {
+                Err(e) => *failed.lock().unwrap() = Some(e),
+                Ok(None) => {}
+                Ok(Some((clause, msg))) => ctx.violation(if clause == "panic" { "fewer-live-workers" } else { &clause }, "worker-panic", "client_stats on/statistics hand-off", json!({"kind":"shared-queue","workers":w,"worker_per_round":ws,"reporter_drains_after_round":drain_after,"message":msg})),
+            }
+        });
+        if let Some(e) = failed.lock().unwrap().take() {
+            return Err(e);
+        }
+    }
     ctx.lap("part 3 health histories done");
     // part 2: start-up schedules under the controlled scheduler
     let sched = crate::sched::c15_startup_schedules(ctx)?;
